@@ -698,10 +698,16 @@ class MPS:
                 assert max_site - min_site == 1, "Entropy and Schmidt cuts must be nearest neighbor."
                 for s in observable.sites:
                     assert s in range(self.length), f"Observable acting on non-existing site: {s}"
+                # The Schmidt decomposition of a bond is read off the two-site tensor only if the
+                # orthogonality centre sits on that bond: move the centre of the working copy there first.
+                if min_site > last_site:
+                    for site in range(last_site, min_site):
+                        temp_state.shift_orthogonality_center_right(site)
+                    last_site = min_site
                 if observable.gate.name == "entropy":
-                    results[obs_index, column_index] = self.get_entropy(observable.sites)
+                    results[obs_index, column_index] = temp_state.get_entropy(observable.sites)
                 elif observable.gate.name == "schmidt_spectrum":
-                    results[obs_index, column_index] = self.get_schmidt_spectrum(observable.sites)
+                    results[obs_index, column_index] = temp_state.get_schmidt_spectrum(observable.sites)
 
             elif observable.gate.name == "pvm":
                 assert hasattr(observable.gate, "bitstring"), "Gate does not have attribute bitstring."
